@@ -1340,7 +1340,11 @@ Qed.
 Theorem file_dict_name_inj : forall p q,
   Forall no_pct (components p) -> Forall no_pct (components q) ->
   file_dict_name (FileUrl p) = file_dict_name (FileUrl q) -> components p = components q.
-Proof. intros p q Hp Hq E. cbn [file_dict_name] in E. inversion E. now apply mangle_inj. Qed.
+Proof.
+  intros p q Hp Hq E. cbn [file_dict_name] in E. apply mangle_inj; try assumption.
+  destruct (mangle (components p)) as [|a l]; destruct (mangle (components q)) as [|b m]; try discriminate;
+    [reflexivity|now inversion E].
+Qed.
 
 (* ------------------------------------------------------------------------------------------------ *)
 (*  witnesses: where the faithful model violates the property (each replayed on the implementation)   *)
